@@ -4,6 +4,7 @@ import (
 	"fmt"
 	"go/token"
 	"math"
+	"os"
 
 	"golang.org/x/tools/go/ssa"
 )
@@ -15,7 +16,13 @@ func (c *Ctx) ruleThresh(dirs ...string) {
 	c.doc("R-THRESH", "every comparison of a length with MaxInlineValue() (directly or through a parameter fed only by it) is `len > M` or `len <= M`; every comparison of a length with a constant in 30..34 decides exactly {n < 32} or its complement; MaxInlineValue is V0->MaxInt, V1->32 (abstractly evaluated)")
 	// 1. MaxInlineValue table
 	if f := c.fn("pkg/trie", "TrieLayout.MaxInlineValue"); f != nil {
-		for ver, want := range map[int64]int64{0: math.MaxInt, 1: 32} {
+		// "never hashed" for V0 is the largest int of the ANALYSED architecture (the thorough tier also analyses GOARCH=386)
+		maxInt := int64(math.MaxInt64)
+		switch os.Getenv("VERIF_GOARCH") {
+		case "386", "arm", "mips", "mipsle", "wasm32":
+			maxInt = math.MaxInt32
+		}
+		for ver, want := range map[int64]int64{0: maxInt, 1: 32} {
 			got, errs := evalFunc(f, &cmpEnv{attr: func(ssa.Value) (attrRef, bool) { return attrRef{}, false },
 				extern: func(v ssa.Value) (any, bool) {
 					if p, ok := v.(*ssa.Parameter); ok && p == f.Params[0] {
